@@ -80,7 +80,9 @@ const TEXT_PATTERN: &[u8] = "a\u{20ac}\u{e9}\u{1f600}z\n".as_bytes();
 #[inline]
 pub fn stream_byte(stream: u32, off: u64) -> u8 {
     if stream >= 200 {
-        return TEXT_PATTERN[((off + stream as u64 * 5) % TEXT_PATTERN.len() as u64) as usize];
+        // every stream starts on a character boundary of the pattern (a different one per stream)
+        let start = [0u64, 1, 4, 6, 10, 11][(stream % 6) as usize];
+        return TEXT_PATTERN[((off + start) % TEXT_PATTERN.len() as u64) as usize];
     }
     // cheap, position-dependent, covers all 256 values incl. NUL and
     // invalid UTF-8; consecutive bytes differ so shifts are visible.
